@@ -74,7 +74,9 @@ def ramsey_cases(draw):
                | st.floats(-10, 10, allow_nan=False).map(lambda x: round(x, 6)))
     return dict(
         phi=phi,
-        basis=draw(st.sampled_from(["digital", "ground-rydberg"])),
+        basis=draw(st.sampled_from(["digital", "ground-rydberg", "digital", "ground-rydberg", "XY"])),
+        # (XY only) an SLM mask on the spectator atom and a shift before the first pulse
+        slm=draw(st.booleans()), pre=draw(st.sampled_from([0.0, 1.3, -2.5])),
         how=draw(st.sampled_from(["shift", "pps", "split", "index", "all"])),
         omega=draw(st.sampled_from([math.pi, 2 * math.pi, 5.0])),
         phase0=draw(st.sampled_from([0.0, 1.0, -0.5])),
@@ -94,10 +96,28 @@ def check_ramsey(case, ctx: Ctx):
     om = (math.pi / 2) / (dur * 1e-3)  # exact pi/2 area
     ctx.nontrivial(min(abs((phi / (math.pi / 2)) - round(phi / (math.pi / 2))), 1) > 1e-3)
     ctx.label(how, basis)
+    if basis == "XY" and case.get("slm"):
+        ctx.label("xy_slm_mask")
 
     def build():
         reg = Register({"q0": (0.0, 0.0), "far": (0.0, 500.0)})
         seq = Sequence(reg, MockDevice)
+        if basis == "XY":
+            # one global microwave channel: every shift is applied to both atoms (a global pulse
+            # needs one reference); the far atom may sit under an SLM mask during the first pulse
+            seq.declare_channel("ch", "mw_global")
+            if case.get("slm"):
+                seq.config_slm_mask(["far"])
+            if case.get("pre"):
+                seq.phase_shift(case["pre"], basis="XY")
+            pps = phi if how == "pps" else (phi / 2 if how == "split" else 0.0)
+            seq.add(Pulse.ConstantPulse(dur, om, 0.0, case["phase0"], post_phase_shift=pps), "ch")
+            if case["gap"]:
+                seq.delay(case["gap"], "ch")
+            if how != "pps":
+                seq.phase_shift(phi / 2 if how == "split" else phi, basis="XY")
+            seq.add(Pulse.ConstantPulse(dur, om, 0.0, case["phase0"]), "ch")
+            return seq
         chid = "raman_local" if basis == "digital" else "rydberg_local"
         seq.declare_channel("ch", chid, initial_target="q0")
         pps = phi if how == "pps" else (phi / 2 if how == "split" else 0.0)
@@ -121,6 +141,7 @@ def check_ramsey(case, ctx: Ctx):
     # two atoms: q0 (index 0, most significant) and a far spectator
     amp = st_.reshape(2, 2)
     # basis order: ground-rydberg (r,g), digital (g,h): excited = r (idx 0) / h (idx 1)
+    # (XY: (u,d), starts in u, excited = d)
     exc_idx = 0 if basis == "ground-rydberg" else 1
     p_exc = float(np.sum(np.abs(amp[exc_idx, :]) ** 2))
     exp = math.cos(phi / 2) ** 2
